@@ -11,11 +11,11 @@ import (
 
 func init() {
 	register("C32", PropertyMeta{
-		Technique: "reset-teardown ordering and coverage over the call graph (read-set of the teardown vs. stores of the reset handler), start/end API identity agreement by decision tables, per-package sibling consistency of start and end calls",
+		Technique: "reset-teardown ordering and coverage over the call graph (read-set of the teardown vs. stores of the reset handler), start/end API identity agreement by decision tables, per-package sibling consistency of start and end calls, SSA alias rule for element pointers across in-place splices, field-level pairing of normal-path and teardown task ends",
 		Explanation: "Decides: (teardown-present) each of the twelve memory agents' Reset handlers reaches a tracing teardown (EndReqInOnReset/EndTaskOnReset) through a helper; (teardown-coverage) that helper's closure reads every in-flight container of the agent (the quiescence fields of C18), so every dropped transaction's tasks are ended; " +
 			"(teardown-order) in the Reset handler no store to a State field that the teardown reads can execute before the teardown call — the teardown must observe the pre-reset state, otherwise tasks of the work being dropped stay started-never-ended; " +
 			"(api-identity) TraceReqComplete/EndReqInOnReset end the task under the same receiver-registry ID that TraceReqReceive started and release the registry entry afterwards, TraceReqFinalize/EndTaskOnReset end the ID TraceReqInitiate started; every API entry returns before doing anything when the domain has no hooks; " +
-			"(siblings) every library package that starts req_in tasks also completes them, that starts req_out tasks also finalizes them, and that calls StartTask also calls EndTask or a reset teardown; (live-release-id) no release call reads its ID from a state field that is always zero at that point (cleared before read); (mint-release) a function that mints a receiver-registry entry with MsgIDAtReceiver for a message type its package never registers with TraceReqReceive releases it on every path to return or parks the ID in a field a release reads.",
+			"(siblings) every library package that starts req_in tasks also completes them, that starts req_out tasks also finalizes them, and that calls StartTask also calls EndTask or a reset teardown; (live-release-id) no release call reads its ID from a state field that is always zero at that point (cleared before read); (mint-release) a function that mints a receiver-registry entry with MsgIDAtReceiver for a message type its package never registers with TraceReqReceive releases it on every path to return or parks the ID in a field a release reads.; (lifecycle-before-stall) no task start/end precedes a cannot-send-yet (return false) test in the same function (it would run once per retry); (stale-element) no pointer to an element of a State slice is used after that slice has been spliced in place, directly or in a callee — it would designate the next request; (reset-single-end) where a normal-path function ends the task whose ID a State record keeps and leaves the record in its container, the reset teardown's EndTaskOnReset on that ID is guarded by a field that path writes (EndTaskOnReset emits the end event unconditionally).",
 		NotDecided:  "that every individual started task is ended on every run (requires matching dynamic IDs), milestone-within-lifetime, single-kind locations, end ≥ start times.",
 		Assumptions: []string{"in-flight containers per agent as frozen for C18"},
 	}, runC32)
@@ -373,6 +373,7 @@ func runC32(c *Ctx) {
 	receiverReleaseRules(c, 1, 10)
 	lifecycleBeforeStallRule(c, "lifecycle-before-stall", 100)
 	staleElementRule(c, "stale-element", 5)
+	resetSingleEndRule(c, "reset-single-end", 1)
 }
 
 // ---- C33 ----
